@@ -155,7 +155,9 @@ func (m *Manager) acquireSemaphore(ctx context.Context) error {
 		return m.sigs.term.Err()
 
 	case m.sem.Get() <- struct{}{}:
+		drpcdebug.Event(m, "sem.acq", 0)
 		if err := m.waitForPreviousStream(ctx); err != nil {
+			drpcdebug.Event(m, "sem.rel", 0)
 			m.sem.Recv()
 			return err
 		}
@@ -170,12 +172,14 @@ func (m *Manager) acquireSemaphore(ctx context.Context) error {
 func (m *Manager) waitForPreviousStream(ctx context.Context) (err error) {
 	prev := m.sbuf.Get()
 	if prev == nil {
+		drpcdebug.Event(m, "prev.none", 0)
 		return nil
 	}
 
 	// if the stream is not finished yet, we need to wait for it to be
 	// finished before letting the next stream to start.
 	if prev.IsFinished() {
+		drpcdebug.Event(m, "prev.done", prev.ID())
 		return nil
 	}
 
@@ -189,6 +193,7 @@ func (m *Manager) waitForPreviousStream(ctx context.Context) (err error) {
 		return m.sigs.term.Err()
 
 	case <-prev.Finished():
+		drpcdebug.Event(m, "prev.done", prev.ID())
 		return nil
 	}
 }
@@ -197,7 +202,9 @@ func (m *Manager) waitForPreviousStream(ctx context.Context) (err error) {
 // that need to be closed to signal the state change.
 func (m *Manager) terminate(err error) {
 	if m.sigs.term.Set(err) {
+		drpcdebug.Event(m, "term", 0)
 		m.log("TERM", func() string { return fmt.Sprint(err) })
+		drpcdebug.Event(m, "tport.close", 0)
 		m.sigs.tport.Set(m.tr.Close())
 		m.sbuf.Close()
 	}
@@ -248,6 +255,7 @@ func (m *Manager) manageReader() {
 		switch curr := m.sbuf.Get(); {
 		// if the packet is for the current stream, deliver it.
 		case curr != nil && pkt.ID.Stream == curr.ID():
+			drpcdebug.Event(m, "rd.deliver", pkt.ID.Stream)
 			if err := curr.HandlePacket(pkt); err != nil {
 				m.terminate(managerClosed.Wrap(err))
 				return
@@ -255,6 +263,7 @@ func (m *Manager) manageReader() {
 
 		// if an old message has been sent, just ignore it.
 		case curr != nil && pkt.ID.Stream < curr.ID():
+			drpcdebug.Event(m, "rd.drop", pkt.ID.Stream)
 
 		// if any invoke sequence is being sent, close any old unterminated
 		// stream and forward it to be handled.
@@ -263,6 +272,7 @@ func (m *Manager) manageReader() {
 				curr.Cancel(context.Canceled)
 			}
 
+			drpcdebug.Event(m, "rd.queue", pkt.ID.Stream)
 			select {
 			case m.pkts <- pkt:
 				m.pdone.Recv()
@@ -279,6 +289,7 @@ func (m *Manager) manageReader() {
 				curr.Cancel(context.Canceled)
 			}
 
+			drpcdebug.Event(m, "rd.wait", pkt.ID.Stream)
 			if !m.sbuf.Wait(curr.ID()) {
 				return
 			}
@@ -303,7 +314,9 @@ func (m *Manager) newStream(ctx context.Context, sid uint64, kind, rpc string) (
 	stream := drpcstream.NewWithOptions(ctx, sid, m.wr, opts)
 	select {
 	case m.streams <- streamInfo{ctx: ctx, stream: stream}:
+		drpcdebug.Event(m, "stream.new.begin", sid)
 		m.sbuf.Set(stream)
+		drpcdebug.Event(m, "stream.new.end", sid)
 		m.log("STREAM", stream.String)
 		return stream, nil
 
@@ -339,9 +352,13 @@ func (m *Manager) manageStream(ctx context.Context, stream *drpcstream.Stream) {
 		}
 		stream.Cancel(err)
 		<-m.sfin
+		drpcdebug.Event(m, "sfin.recv", stream.ID())
+		drpcdebug.Event(m, "sem.rel", 0)
 		m.sem.Recv()
 
 	case <-m.sfin:
+		drpcdebug.Event(m, "sfin.recv", stream.ID())
+		drpcdebug.Event(m, "sem.rel", 0)
 		m.sem.Recv()
 
 	case <-ctx.Done():
@@ -349,6 +366,7 @@ func (m *Manager) manageStream(ctx context.Context, stream *drpcstream.Stream) {
 
 		if m.opts.SoftCancel {
 			// allow a new stream to begin.
+			drpcdebug.Event(m, "sem.rel", 0)
 			m.sem.Recv()
 
 			// attempt to send the soft cancel. if it fails or if the stream is
@@ -363,6 +381,7 @@ func (m *Manager) manageStream(ctx context.Context, stream *drpcstream.Stream) {
 
 			// wait for the stream to signal that it is finished.
 			<-m.sfin
+			drpcdebug.Event(m, "sfin.recv", stream.ID())
 		} else {
 			// If the stream isn't already finished, we have to terminate the
 			// transport to do an active cancel. If it is already finished,
@@ -376,8 +395,10 @@ func (m *Manager) manageStream(ctx context.Context, stream *drpcstream.Stream) {
 
 			// wait for the stream to signal that it is finished.
 			<-m.sfin
+			drpcdebug.Event(m, "sfin.recv", stream.ID())
 
 			// allow a new stream to begin.
+			drpcdebug.Event(m, "sem.rel", 0)
 			m.sem.Recv()
 		}
 	}
@@ -433,6 +454,7 @@ func (m *Manager) NewServerStream(ctx context.Context) (stream *drpcstream.Strea
 	}
 	defer func() {
 		if err != nil {
+			drpcdebug.Event(m, "sem.rel", 0)
 			m.sem.Recv()
 		}
 	}()
